@@ -91,6 +91,7 @@ class CWorld:
         os.makedirs(os.path.join(scratch, "files"), exist_ok=True)
         self.ref = h5py.File(os.path.join(scratch, "ref", "plain.h5"), "w")
         self.meta = {}  # path -> {schema name -> {"name","version","json"}}
+        self.held = {}  # driver kind -> (path, MetadorMeta handle kept over consecutive meta ops)
         self.packed = {}  # path -> hex of bytes
         self.faults = {}
         self.probes = {}
@@ -390,7 +391,7 @@ class CWorld:
                 ok = False
                 for c in cands:
                     try:
-                        if canon_json(cls.parse_raw(c["json"]).json()) == canon_json(pv.json()):
+                        if canon_json(cls.parse_obj(json.loads(c["json"])).json()) == canon_json(pv.json()):
                             ok = True
                     except Exception:
                         pass
@@ -630,6 +631,36 @@ class CWorld:
         self.schemas._ensure_is_loaded(ref)
         return self.schemas._LOADED_PLUGINS[ref]
 
+    def meta_of(self, dv, p, op):
+        """The node's metadata interface: a fresh one, or (op['held']) the handle kept from
+        the previous consecutive metadata operation at the same node."""
+        if not op.get("held"):
+            return dv.mc[p].meta
+        h = self.held.get(dv.kind)
+        if h is not None and h[0] == p:
+            self.probe("held_meta_handle_reused")
+            return h[1]
+        m = dv.mc[p].meta
+        self.held[dv.kind] = (p, m)
+        return m
+
+    def held_keys_check(self, p, op):
+        """keys()/len()/in of a held metadata interface agree with what is attached."""
+        if not op.get("held"):
+            return
+        want = sorted(self.meta.get(p, {}))
+        for dv in self.drv:
+            h = self.held.get(dv.kind)
+            if h is None or h[0] != p:
+                continue
+            try:
+                got = sorted(k if isinstance(k, str) else repr(k) for k in h[1].keys())
+                ln = len(h[1])
+            except Exception as e:
+                raise Violation("C07", "held-keys-raised", f"[{dv.kind}] keys() of the metadata interface held for {p} raised {type(e).__name__}: {e}")
+            if got != want or ln != len(want):
+                raise Violation("C07", "held-keys", f"[{dv.kind}] metadata interface held for {p}: keys()={got!r} len={ln}, attached schemas {want}")
+
     def op_meta_set(self, op):
         """meta[key] = value; key: schema name ('name') or exact class ('class');
         value as dict / schema instance / JSON text ('as')."""
@@ -668,7 +699,7 @@ class CWorld:
                 val = scls.parse_obj(inst).json()
 
         def fn(dv):
-            dv.mc[p].meta[key] = val
+            self.meta_of(dv, p, op)[key] = val
 
         res = self.all_apply(fn)
         ok = self.same_outcome(res, f"meta_set {p} {name} {ver}")
@@ -681,8 +712,9 @@ class CWorld:
             # what reading the stored bytes with the schema gives (re-parsing normalises nested
             # child-schema values to the declared field type: serialisation round trips are the
             # unclaimed property C12, not judged here)
-            js = scls.parse_raw(js).json()
+            js = scls.parse_obj(json.loads(js)).json()
             self.meta.setdefault(p, {})[name] = {"name": name, "version": list(sv), "json": js}
+        self.held_keys_check(p, op)
         return "ok" if ok else "raise"
 
     def op_meta_del(self, op):
@@ -691,7 +723,7 @@ class CWorld:
         expect = self.ref_kind(p) is not None and name in self.meta.get(p, {})
 
         def fn(dv):
-            del dv.mc[p].meta[name]
+            del self.meta_of(dv, p, op)[name]
 
         res = self.all_apply(fn)
         ok = self.same_outcome(res, f"meta_del {p} {name}")
@@ -702,6 +734,7 @@ class CWorld:
             del self.meta[p][name]
             if not self.meta[p]:
                 del self.meta[p]
+        self.held_keys_check(p, op)
         return "ok" if ok else "raise"
 
     def op_meta_get(self, op):
@@ -716,7 +749,7 @@ class CWorld:
             cls = None
         for dv in self.drv:
             try:
-                got = dv.mc[p].meta.get(name, ver)
+                got = self.meta_of(dv, p, op).get(name, ver)
                 ok = True
             except Exception as e:
                 ok, err = False, e
@@ -736,7 +769,7 @@ class CWorld:
             okc = False
             for c in cands:
                 try:
-                    if canon_json(cls.parse_raw(c["json"]).json()) == canon_json(got.json()):
+                    if canon_json(cls.parse_obj(json.loads(c["json"])).json()) == canon_json(got.json()):
                         okc = True
                 except Exception:
                     pass
@@ -789,6 +822,8 @@ class CWorld:
     def step(self, i, op):
         self.steps += 1
         k = op["op"]
+        if not (k in ("meta_set", "meta_del", "meta_get") and op.get("held")):
+            self.held.clear()  # handles are only kept over consecutive metadata operations
         if k in OWNER_DATA_OPS:
             out = self.op_data(op)
         elif k == "meta_set":
@@ -903,6 +938,12 @@ class CWorld:
             ent = raw.get(p)
             if ent is None or ent[0] != "d":
                 raise Violation("C17", "packed-node-lost", f"[{dv.kind}] embedded file {p} is gone")
+            if ent[1][0] == "V":
+                # large file: compared by length and digest
+                if [ent[1][1], ent[1][2]] != [len(hx) // 2, hashlib.sha256(bytes.fromhex(hx)).hexdigest()]:
+                    raise Violation("C17", "packed-bytes", f"[{dv.kind}] bytes of embedded file {p} ({ent[1][1]} bytes) differ from the source ({len(hx) // 2} bytes)")
+                self.probe("packed_bytes_verified")
+                continue
             got = hexbytes(ent[1])
             if got is None or got.hex() != hx:
                 raise Violation("C17", "packed-bytes", f"[{dv.kind}] bytes of embedded file {p} differ from the source ({len(got) if got is not None else None} vs {len(hx) // 2} bytes)")
@@ -1087,8 +1128,25 @@ class ContainerEngine:
                         op.update(path=p, schema=nn, version=list(vv))
                 if len(ms.pairs()) >= 12 and "bad" not in op:
                     continue
+                fresh_attach = "bad" not in op and op["schema"] not in ("verif.aux", "verif.ghost") and op["path"] in sh.nodes and (op["path"], op["schema"]) not in ms.pairs()
                 if "bad" not in op and op["schema"] not in ("verif.aux", "verif.ghost") and op["path"] in sh.nodes:
                     ms.add(op["path"], op["schema"])
+                if g.random() < 0.3:
+                    # a burst of metadata operations through one kept node.meta handle
+                    op["held"] = True
+                    ops.append(op)
+                    for _ in range(g.randint(1, 3)):
+                        c = g.random()
+                        counter[0] += 1
+                        if c < 0.45:  # attach the same schema again (must be refused)
+                            ops.append({**op, "idx": counter[0], "as": g.choice(["dict", "obj", "json"])})
+                        elif c < 0.65 and fresh_attach:
+                            ops.append({"op": "meta_del", "path": op["path"], "schema": op["schema"], "held": True})
+                            ms.rm(op["path"], op["schema"])
+                            fresh_attach = False
+                        else:
+                            ops.append({"op": "meta_get", "path": op["path"], "schema": g.choice(VS.QUERY_NAMES), "version": g.choice(VS.QUERY_VERSIONS), "held": True})
+                    continue
                 ops.append(op)
             elif k == "meta_del":
                 if ms.pairs() and g.random() < 0.85:
@@ -1132,6 +1190,8 @@ class ContainerEngine:
                 ln = g.choice(PACK_LENGTHS + [g.randint(0, 300), g.randint(0, 5000)])
                 content = g.choice(["rand", "zeros", "nulrich", "high", "text", "trailnul"])
                 op = {"op": "pack", "base": g.choice(sh.groups()), "target": dgen.key() + f"_f{counter[0]}" if g.random() < 0.85 else (dgen.existing(sh) or "x").lstrip("/") or "x", "len": ln, "content": content, "seed": counter[0]}
+                if prop == "C17" and g.random() < 0.04:
+                    op.update(len=g.choice([1048577, 1048576 + 4097, 2 * 1048576 + 3]))  # beyond 1 MiB
                 if g.random() < 0.08:
                     op.update(len=1, content="marker")
                 if g.random() < 0.2:
@@ -1315,7 +1375,7 @@ def op_pack(w, op):
 
 # ====================================================================== reserved paths (C08)
 
-RESERVED_METHODS = ["get_getclass", "get_getlink", "get_default", "__getitem__", "get", "__contains__", "create_group", "require_group", "create_dataset", "require_dataset", "__setitem__", "__delitem__", "move_src", "move_dst", "copy_src", "copy_dst", "copy_dst_group_name", "pack_target"]
+RESERVED_METHODS = ["setitem_softlink", "setitem_hardlink_obj", "get_getclass", "get_getlink", "get_default", "__getitem__", "get", "__contains__", "create_group", "require_group", "create_dataset", "require_dataset", "__setitem__", "__delitem__", "move_src", "move_dst", "copy_src", "copy_dst", "copy_dst_group_name", "pack_target"]
 RESERVED_VARIANTS = ["rel", "nested", "nested_deep", "abs_toc", "abs_toc_deep", "existing_meta", "existing_obj", "abs_meta", "toc_links", "rel_meta_of_child"]
 KNOWN_PROTOCOL = {"__getitem__", "__setitem__", "__delitem__", "__iter__", "__len__", "__contains__", "keys", "values", "items", "get", "visititems", "visit", "create_dataset", "require_dataset", "create_group", "require_group", "move", "copy", "name", "attrs", "parent", "file"}
 
@@ -1379,6 +1439,13 @@ def op_reserved(w, op):
                 result = g[rp]
             elif method == "get":
                 result = g.get(rp)
+            elif method == "setitem_softlink":
+                # a link *value* that targets the reserved namespace (h5py driver would follow it)
+                g["zz_alias"] = w.h5py.SoftLink(rp if rp.startswith("/") else (base.rstrip("/") + "/" + rp))
+                result = "link stored"
+            elif method == "setitem_hardlink_obj":
+                g["zz_alias"] = w.h5py.ExternalLink("other.h5", rp)
+                result = "link stored"
             elif method == "get_getclass":
                 result = g.get(rp, getclass=True)
             elif method == "get_getlink":
@@ -1460,7 +1527,7 @@ FLAG_SETS = [["read_only"], ["skel_only"], ["local_only"], ["read_only", "local_
 NAV_PRIMS = ["getitem_deep", "getitem", "get", "child", "values", "items", "visititems", "parent", "query", "restrict", "restrict_self", "root_abs", "require_group_existing", "iter"]
 MUTATING = ["d_write_direct", "g_setitem", "g_create_group", "g_require_group", "g_create_dataset", "g_require_dataset", "g_delitem", "g_move", "g_copy", "d_setitem", "d_resize", "a_setitem", "a_delitem", "a_update", "a_pop", "a_clear", "a_setdefault", "a_create", "a_modify", "m_setitem", "m_delitem", "unrestrict"]
 READING = ["d_getitem", "d_getitem_slice", "d_get", "a_getitem", "a_get", "a_values", "a_items", "m_getitem", "m_get", "m_values", "m_items", "d_astype", "d_len_fields", "d_asstr", "d_iter", "d_read_direct", "d_nparray", "a_iter_getitem", "a_dict"]
-UPWARD = ["parent", "file", "abs_lookup", "abs_get", "abs_contains", "metador_query_root", "parent_parent"]
+UPWARD = ["parent", "file", "abs_lookup", "abs_get", "abs_contains", "metador_query_root", "parent_parent", "abs_prefix_sibling"]
 
 
 def is_node(x):
@@ -1590,6 +1657,15 @@ def closure_check(w, dv, h, tokens):
             for k in mkeys:
                 rd(f"meta[{k!r}]", lambda k=k: x.meta[k])
                 rd(f"meta.get({k!r})", lambda k=k: x.meta.get(k))
+                # ... and through the parent schemas of what is attached
+                try:
+                    o = w.meta.get(w.norm(x.name), {}).get(k)
+                    parents = [a.name for a in w.plugin_parent_path(o["name"], o["version"])[:-1]] if o else []
+                except Exception:
+                    parents = []
+                for pn in parents:
+                    rd(f"meta.get({pn!r})", lambda pn=pn: x.meta.get(pn))
+                    rd(f"meta[{pn!r}]", lambda pn=pn: x.meta[pn])
             rd("meta.values()", lambda: list(x.meta.values()))
             for what, val in reads:
                 l = leaks(w, val, tokens)
@@ -1807,6 +1883,7 @@ def _op_attempt(w, op):
     kind, arg = op["kind"], op.get("arg", 0)
     # unique content tokens of the container (dataset and attribute values, except bools/Empty)
     tokens = content_tokens(w)
+    dump, _ = V.dump_tree(w.ref)
     if kind == "closure":
         for dv in w.drv:
             h = _handle(w, dv, op)
@@ -1968,6 +2045,17 @@ def _op_attempt(w, op):
             elif kind == "abs_contains":
                 res = ("/" + (sorted(w.ref.keys())[0] if len(w.ref.keys()) else "x")) in node
                 res = None if res is False else "absolute path answered True"
+            elif kind == "abs_prefix_sibling":
+                # absolute path of a node outside the local root whose path starts with the
+                # same characters (/run vs /run2, /run_old/x)
+                rt = root_of(h)
+                cands = sorted(q for q in dump if rt and rt != "/" and q.startswith(rt) and not within(rt, q))
+                if cands:
+                    tgt = cands[arg % len(cands)]
+                    res = [node[tgt]] if isgrp else None
+                    if isgrp:
+                        res.append(node.get(tgt))
+                        res = [r for r in res if r is not None]
             elif kind == "metador_query_root":
                 res = list(node.metador.query(VS.QUERY_NAMES[arg % len(VS.QUERY_NAMES)]))
             else:
